@@ -146,15 +146,19 @@ static_matrix<T, N, M> operator-(static_matrix<T, N, M> a, const static_matrix<U
 }
 
 template <typename T, typename U, int N, int K, int M>
-static_matrix<T, N, M> operator*(
+static_matrix<decltype(T() * U()), N, M> operator*(
         const static_matrix<T, N, K> &a,
         const static_matrix<U, K, M> &b
         )
 {
-    static_matrix<T, N, M> c;
+    // The product of mixed precision operands (e.g. a single precision
+    // matrix block and a double precision vector block) is accumulated
+    // and returned in the wider type.
+    typedef decltype(T() * U()) R;
+    static_matrix<R, N, M> c;
     for(int i = 0; i < N; ++i) {
         for(int j = 0; j < M; ++j)
-            c(i,j) = math::zero<T>();
+            c(i,j) = math::zero<R>();
         for(int k = 0; k < K; ++k) {
             T aik = a(i,k);
             for(int j = 0; j < M; ++j)
